@@ -26,7 +26,7 @@ REQUIRED = ["angle-class.small-angle(|a|<=0.05)", "angle-class.general-angle", "
             "contract.translate_rotate.GoalRegion", "contract.translate_rotate.containment-probe",
             "part.Trajectory-in-DynamicObstacle",
             "part.Trajectory-in-Scenario", "part.LaneletNetwork-in-Scenario", "part-with-derived-occupancies",
-            "class.NetworkSharedArrays", "class.IntDtype", "class.LaneletWithPointlessStopLine", "shared-components.move-network",
+            "class.NetworkSharedArrays", "class.PlanningProblemsWithCommonGoal", "class.IntDtype", "class.LaneletWithPointlessStopLine", "shared-components.move-network",
             "shared-components.move-obstacle-1"]
 ASSUMPTIONS = ["tolerance 1e-9*(1+|p|+|t|) on points, 1e-8 on angles (mod 2pi)",
                "obstacle history lists and areas are not in the statement's list and are not compared"]
@@ -37,7 +37,8 @@ CLASSES = ["Rectangle", "Circle", "Polygon", "ShapeGroup", "InitialState", "KSSt
            "ExtendedPMState", "PMState", "CustomState", "UncertainState", "Trajectory", "TrajectoryPM", "Occupancy",
            "SetBasedPrediction", "TrajectoryPrediction", "StaticObstacle", "DynamicObstacle", "PhantomObstacle",
            "EnvironmentObstacle", "StopLine", "Lanelet", "TrafficSign", "TrafficLight", "LaneletNetwork", "Scenario",
-           "GoalRegion", "PlanningProblem", "PlanningProblemSet", "NetworkSharedArrays", "IntDtype",
+           "GoalRegion", "PlanningProblem", "PlanningProblemSet", "PlanningProblemsWithCommonGoal", "NetworkSharedArrays",
+           "IntDtype",
            "LaneletWithPointlessStopLine"]
 
 
@@ -45,6 +46,18 @@ def angle_pool(rng):
     base = [0.0, 0, 1e-9, -1e-9, 1e-4, -0.01, 0.03, 0.05, -0.05, 0.0500001, -0.0500001, 0.06, math.pi / 2, -math.pi / 2,
             math.pi, -math.pi, 3 * math.pi / 2, TWO_PI, -TWO_PI, 1.0, -2.5, 1]
     return base + [rng.uniform(-0.06, 0.06) for _ in range(3)] + [rng.uniform(-TWO_PI, TWO_PI) for _ in range(4)]
+
+
+def _pm_velocity(rng):
+    """velocity vector of a point-mass state: general, or exactly along one axis (one component 0 / 0.0 / -0.0)"""
+    k = rng.randrange(6)
+    v = rng.choice([8.0, -3.5, 0.25, rng.uniform(-9, 9)])
+    z = rng.choice([0.0, -0.0, 0])
+    if k == 1:
+        return v, z
+    if k == 3:
+        return z, v
+    return rng.uniform(-9, 9), rng.uniform(-9, 9)
 
 
 def make(name, G, rng):
@@ -56,7 +69,8 @@ def make(name, G, rng):
     if name == "ShapeGroup":
         return G.shape_group()
     if name == "PMState":
-        return st.PMState(time_step=1, position=G.pos(), velocity=rng.uniform(-9, 9), velocity_y=rng.uniform(-9, 9))
+        vx, vy = _pm_velocity(rng)
+        return st.PMState(time_step=1, position=G.pos(), velocity=vx, velocity_y=vy)
     if name == "CustomState":
         return G.custom_state(2)
     if name == "UncertainState":
@@ -68,8 +82,9 @@ def make(name, G, rng):
         return G.trajectory(rng.choice(["KSState", "STState", "MBState"]), 1)
     if name == "TrajectoryPM":
         from commonroad.scenario.trajectory import Trajectory
-        return Trajectory(1, [st.PMState(time_step=1 + k, position=G.pos(), velocity=rng.uniform(-9, 9),
-                                         velocity_y=rng.uniform(-9, 9)) for k in range(3)])
+        vs = [_pm_velocity(rng) for _ in range(3)]
+        return Trajectory(1, [st.PMState(time_step=1 + k, position=G.pos(), velocity=vs[k][0], velocity_y=vs[k][1])
+                              for k in range(3)])
     if name == "Occupancy":
         return G.occupancy(3)
     if name == "SetBasedPrediction":
@@ -164,6 +179,11 @@ def make(name, G, rng):
         return G.planning_problem(1)
     if name == "PlanningProblemSet":
         return G.planning_problem_set(n=rng.randint(1, 3))
+    if name == "PlanningProblemsWithCommonGoal":
+        # several vehicles with one common destination: the planning problems were given the SAME goal region object
+        from commonroad.planning.planning_problem import PlanningProblem, PlanningProblemSet
+        goal = G.goal_region()
+        return PlanningProblemSet([PlanningProblem(70 + k, G.state("InitialState", 0), goal) for k in range(rng.randint(2, 3))])
     raise ValueError(name)
 
 
